@@ -940,6 +940,380 @@ theorem C12_lambda_dispatch (T : Table) (c : Cfg) (R : Req) (stop₀ : Bool) :
   rw [List.filterMap_map]
   rfl
 
+/-! ## Extension round 2 (code inside the model): the `stop_training` setter, an exception escaping from a callback,
+`CallbackList` as a mutable sequence, the `Timer` -/
+
+/-- **C12.13** The `stop_training` setter (neural_state.py:46-50) and what an assignment by a callback amounts to.
+(1) a Python `bool` is accepted and stored; (2) every other kind — `numpy.bool_` (a numpy comparison result), `int` 0/1, a 0-d
+tensor, `None`, a `str` — is refused with an exception and leaves the whole state, in particular the flag, exactly as it was;
+(3) hence the stop requests of a run are exactly the accepted assignments of `True`: a refused assignment is NOT a request;
+(4) a handler ends with an exception iff it assigns a refused kind outside a `try`; (5) a run in which the callbacks only
+make refused assignments (caught) or assign `False` is, event for event and entry for entry, the run in which no callback
+requests anything — it is not cut short and the flag stays as it was. -/
+theorem C12_refused_request_leaves_flag (v : PyVal) (s : S) (A : Asg) (mid : Int → Nat → Bool) :
+    (∀ b, assignStop (.pyBool b) s = (none, { s with stop := b })) ∧
+    (v.isBool = false → assignStop v s = (some .ValueError, s)) ∧
+    (∀ i ev, (A.req mid).cb i ev = true ↔ ∃ c, A i ev = some (.pyBool true, c)) ∧
+    (∀ i ev, (A.raises i ev).isSome = true ↔ ∃ w, A i ev = some (w, false) ∧ w.isBool = false) ∧
+    ((∀ i ev w c, A i ev = some (w, c) → w ≠ .pyBool true ∧ (w.isBool = false → c = true)) →
+      ∀ c stop₀, fitAsg c A mid stop₀ = .ok (fit c { cb := fun _ _ => false, mid := mid } stop₀)) := by
+  refine ⟨fun b => rfl, ?_, ?_, ?_, ?_⟩
+  · intro hv
+    cases v <;> first | rfl | (simp [PyVal.isBool] at hv)
+  · intro i ev
+    simp only [Asg.req]
+    cases hA : A i ev with
+    | none => simp
+    | some p =>
+      obtain ⟨w, c⟩ := p
+      cases w with
+      | pyBool b => cases b <;> simp [setStop]
+      | _ => simp [setStop]
+  · intro i ev
+    simp only [Asg.raises]
+    cases hA : A i ev with
+    | none => simp
+    | some p =>
+      obtain ⟨w, c⟩ := p
+      cases w <;> cases c <;> simp [setStop, PyVal.isBool]
+  · intro h c stop₀
+    have hreq : A.req mid = { cb := fun _ _ => false, mid := mid } := by
+      simp only [Asg.req, Req.mk.injEq, and_true]
+      funext i ev
+      cases hA : A i ev with
+      | none => rfl
+      | some p =>
+        obtain ⟨w, cc⟩ := p
+        have := (h i ev w cc hA).1
+        cases w with
+        | pyBool b => cases b <;> simp_all [setStop]
+        | _ => rfl
+    have hno : ∀ i ev, A.raises i ev = none := by
+      intro i ev
+      simp only [Asg.raises]
+      cases hA : A i ev with
+      | none => rfl
+      | some p =>
+        obtain ⟨w, cc⟩ := p
+        have := (h i ev w cc hA).2
+        cases w with
+        | pyBool b => rfl
+        | _ => simp [setStop, this (by rfl)]
+    simp only [fitAsg, hreq, cutAtRaise_none (fun p _ => hno p.1 p.2)]
+
+/-- the refusal of a `numpy.bool_` is real: `nn_state.stop_training = np.True_` raises and the flag stays clear;
+a run whose only "request" is such an assignment (caught by the callback) at the end of epoch 1 runs both epochs -/
+example :
+    assignStop (.npBool true) { stop := false, notified := false, ver := 3, sched := 1 } =
+      (some .ValueError, { stop := false, notified := false, ver := 3, sched := 1 }) ∧
+    (let c : Cfg := { start := 1, epochs := 2, numBatches := 1, cbs := [0], timer := false, hasSched := false }
+     let A : Asg := fun i ev => if i == 0 && ev == Event.epochEnd 1 then some (.npBool true, true) else none
+     (match fitAsg c A (fun _ _ => false) false with
+      | .ok r => some ((events r.1).length, r.2.stop) | .error _ => none) = some (10, false)) := by decide
+
+/-- **C12.14** An exception raised by a callback inside `fit` (here: a refused assignment to `stop_training` outside a `try`).
+Neither `CallbackList` nor `fit` catches anything, so what has happened when the exception leaves `fit` is a PREFIX of the run
+that would have happened: the log up to and including the first raising handler invocation — the later callbacks and the
+Timer do not see that event, no later event is emitted (in particular neither the epoch-end nor train-end), and no earlier
+invocation raised. The events / handler invocations seen are prefixes of the protocol trace (`C12_protocol`) / dispatch
+sequence (`C12_dispatch_order`) of the full run; the control skeleton so far is a prefix of the events' expansion, i.e. every
+parameter update made sits immediately after its batch-start emission (updates only inside batch windows) and the version
+left behind is the number of updates made; the flag left behind is the initial flag or-ed with the requests made before
+(so a later call is silent iff a stop had been requested, `C12_stopped_run_is_noop`). A run started stopped never raises.
+The last event emitted is the one whose dispatch was interrupted (every invocation is for the event emitted last). -/
+theorem C12_exception_trace (c : Cfg) (A : Asg) (mid : Int → Nat → Bool) (stop₀ : Bool) (ab : Abort)
+    (h : fitAsg c A mid stop₀ = .error ab) :
+    ∃ pre' i ev seen ver post,
+      ab.log = pre' ++ [Entry.call i ev seen ver] ∧
+      (fit c (A.req mid) stop₀).1 = ab.log ++ post ∧
+      A.raises i ev = some ab.err ∧
+      (∀ p ∈ calls pre', A.raises p.1 p.2 = none) ∧
+      events ab.log <+: events (fit c (A.req mid) stop₀).1 ∧
+      calls ab.log <+: (events (fit c (A.req mid) stop₀).1).flatMap (fun ev => c.cbs.map (fun i => (i, ev))) ∧
+      skeleton ab.log <+: (events (fit c (A.req mid) stop₀).1).flatMap (expandEv c) ∧
+      ab.stop = (stop₀ || ab.log.any (A.req mid).at) ∧
+      ab.ver = ab.log.countP Entry.isOpt ∧
+      stop₀ = false ∧
+      (events ab.log).getLast? = some ev := by
+  unfold fitAsg at h
+  simp only at h
+  cases hc : cutAtRaise A.raises (fit c (A.req mid) stop₀).1 with
+  | none => simp [hc] at h
+  | some q =>
+    obtain ⟨pre, e⟩ := q
+    simp only [hc, Except.error.injEq] at h
+    obtain ⟨pre', i, ev, seen, ver, post, e1, e2, e3, e4⟩ := cutAtRaise_some hc
+    have hlog : ab.log = pre := by rw [← h]
+    have herr : ab.err = e := by rw [← h]
+    have hfull : (fit c (A.req mid) stop₀).1 = pre' ++ Entry.call i ev seen ver :: post := by
+      rw [e2, e1]; simp
+    have hseen := (C12_sticky c (A.req mid) stop₀).2.1 pre' i ev seen ver post hfull
+    have hver := (C12_param_window c (A.req mid) stop₀).1 pre' i ev seen ver post hfull
+    have hst : abortState (A.req mid) stop₀ pre = (seen || (A.req mid).cb i ev, ver) := by
+      simp [abortState, e1]
+    refine ⟨pre', i, ev, seen, ver, post, by rw [hlog, e1], by rw [hlog, e2], by rw [herr, e3], e4, ?_, ?_, ?_, ?_, ?_, ?_, ?_⟩
+    · rw [hlog, e2, events_append]; exact List.prefix_append _ _
+    · rw [← C12_dispatch_order, hlog, e2, calls_append]; exact List.prefix_append _ _
+    · rw [← (C12_param_window c (A.req mid) stop₀).2.1, hlog, e2, skeleton_append]; exact List.prefix_append _ _
+    · rw [← h]
+      simp only [hst]
+      rw [hseen, e1]
+      simp [Req.at, Bool.or_assoc]
+    · rw [← h]
+      simp only [hst]
+      rw [hver, e1]
+      simp [Entry.isOpt]
+    · cases stop₀
+      · rfl
+      · rw [fit_stopped] at hfull; simp at hfull
+    · have hok := fit_callsOK c (A.req mid) stop₀
+      rw [hfull] at hok
+      have hcur := callsOK_split hok
+      rw [curAfter_none] at hcur
+      rw [hlog, e1, events_append]
+      simpa using hcur
+
+/-- list fact: an element that occurs once in `A ++ B`, as its last element, does not occur in `A` unless `A` ends with it -/
+theorem not_mem_of_last_once {α : Type} [DecidableEq α] {A B : List α} {x y : α} (hc : (A ++ B).count x = 1)
+    (hl : (A ++ B).getLast? = some x) (hA : A.getLast? = some y) (hxy : y ≠ x) : x ∉ A := by
+  intro hx
+  cases B with
+  | nil =>
+    rw [List.append_nil, hA] at hl
+    exact hxy (Option.some.inj hl)
+  | cons b B =>
+    have hB : x ∈ b :: B := by
+      rw [List.getLast?_append] at hl
+      cases hb : (b :: B).getLast? with
+      | none => simp at hb
+      | some z =>
+        rw [hb] at hl
+        have hz : z = x := by simpa using hl
+        exact List.mem_of_getLast? (hz ▸ hb)
+    have h1 : 1 ≤ A.count x := List.count_pos_iff.mpr hx
+    have h2 : 1 ≤ (b :: B).count x := List.count_pos_iff.mpr hB
+    rw [List.count_append] at hc
+    omega
+
+/-- **C12.14b** When the exception is raised while an event other than train-end is dispatched, `on_train_end` has NOT been
+dispatched when it leaves `fit` (and, the trace being a prefix ending in the interrupted event, neither has anything after that
+event: the current epoch's end event is not delivered either unless it is the interrupted one). -/
+theorem C12_exception_no_train_end (c : Cfg) (A : Asg) (mid : Int → Nat → Bool) (stop₀ : Bool) (ab : Abort)
+    (h : fitAsg c A mid stop₀ = .error ab) (hte : ∀ i, A.raises i .trainEnd = none) :
+    Event.trainEnd ∉ events ab.log := by
+  obtain ⟨pre', i, ev, seen, ver, post, e1, e2, e3, _, _, _, _, _, _, hs, hlast⟩ := C12_exception_trace c A mid stop₀ ab h
+  subst hs
+  have hev : ev ≠ .trainEnd := by
+    intro he; rw [he, hte i] at e3; cases e3
+  have hfull : events (fit c (A.req mid) false).1 = events ab.log ++ events post := by rw [e2, events_append]
+  have honce : (events (fit c (A.req mid) false).1).count .trainEnd = 1 ∧
+      (events (fit c (A.req mid) false).1).getLast? = some .trainEnd := by
+    by_cases hnb : 1 ≤ c.numBatches
+    · have := C12_train_events_once c (A.req mid) false hnb
+      exact ⟨by simpa using this.2.1, (this.2.2 rfl).2⟩
+    · have h0 : c.numBatches = 0 := by omega
+      obtain ⟨⟨m, _, hm⟩, _, hc, _⟩ := C12_protocol_no_batches c (A.req mid) false h0
+      refine ⟨by simpa using hc, ?_⟩
+      simp only [Bool.false_eq_true, if_false] at hm
+      rw [hm, ← List.cons_append, List.getLast?_append]; simp
+  rw [hfull] at honce
+  exact not_mem_of_last_once honce.1 honce.2 hlast hev
+
+/-- callback 1 assigns a numpy truth value without a `try` at the end of batch (1,0) of a two-batch epoch, after callback 0
+has requested a stop at the start of that batch: the exception leaves `fit` with the trace `ts, es 1, bs 1 0, be 1 0` (no
+epoch-end, no train-end), one update made, the flag set; callback 2 never sees that batch-end -/
+example :
+    let c : Cfg := { start := 1, epochs := 2, numBatches := 2, cbs := [0, 1, 2], timer := true, hasSched := false }
+    let A : Asg := fun i ev =>
+      if i == 0 && ev == Event.batchStart 1 0 then some (.pyBool true, false)
+      else if i == 1 && ev == Event.batchEnd 1 0 then some (.npBool true, false) else none
+    (match fitAsg c A (fun _ _ => false) false with
+     | .ok _ => none
+     | .error ab => some (events ab.log, (calls ab.log).getLast?, ab.err, ab.stop, ab.ver)) =
+      some ([.trainStart, .epochStart 1, .batchStart 1 0, .batchEnd 1 0], some (1, .batchEnd 1 0), .ValueError, true, 1) := by
+  decide
+
+/-- **C12.15** `CallbackList` as a mutable sequence (callback_list.py:26-55) is plain list surgery on the callbacks `fit`
+will dispatch to, behind an `isinstance` guard. With `j` the normalised index (`pyIdx`: `k` itself for `0 ≤ k < n`, `k + n` for
+`-n ≤ k < 0`, otherwise `IndexError`): `cl[k] = cb` replaces position `j` and nothing else; `del cl[k]` removes position `j`;
+`cl.insert(k, cb)` puts `cb` before position `insIdx k` (clamped into `0 … n`, never an error); `cl.append(cb)` puts it last;
+`a + b` is `a`'s callbacks followed by `b`'s; `cl[k]` reads position `j`. Offering a non-callback to `__setitem__` / `insert` /
+`append` is refused (`TypeError`, before the index is looked at). -/
+theorem C12_container_ops (l : List Nat) :
+    (∀ (n : Nat) (k : Int) (j : Nat), pyIdx n k = some j ↔
+      ((0 ≤ k ∧ k < n ∧ (j : Int) = k) ∨ (k < 0 ∧ -(n : Int) ≤ k ∧ (j : Int) = k + n))) ∧
+    (∀ k i j, pyIdx l.length k = some j →
+      CbOp.apply l (.setItem k (.cb i)) = .ok (l.take j ++ i :: l.drop (j + 1)) ∧
+      CbOp.apply l (.delItem k) = .ok (l.take j ++ l.drop (j + 1)) ∧
+      cbGetItem l k = .ok (l.getD j 0) ∧ j < l.length) ∧
+    (∀ k i, pyIdx l.length k = none →
+      CbOp.apply l (.setItem k (.cb i)) = .error .IndexError ∧ CbOp.apply l (.delItem k) = .error .IndexError ∧
+      cbGetItem l k = .error .IndexError) ∧
+    (∀ k i, CbOp.apply l (.insert k (.cb i)) =
+        .ok (l.take (insIdx l.length k) ++ i :: l.drop (insIdx l.length k)) ∧ insIdx l.length k ≤ l.length) ∧
+    (∀ i, CbOp.apply l (.append (.cb i)) = .ok (l ++ [i])) ∧
+    (∀ o, CbOp.apply l (.add o) = .ok (l ++ o) ∧ CbOp.apply l (.radd o) = .ok (o ++ l)) ∧
+    (∀ k, CbOp.apply l (.setItem k .other) = .error .TypeError ∧ CbOp.apply l (.insert k .other) = .error .TypeError ∧
+      CbOp.apply l (.append .other) = .error .TypeError) := by
+  refine ⟨?_, ?_, ?_, ?_, ?_, ?_, ?_⟩
+  · intro n k j
+    constructor
+    · intro h
+      obtain ⟨h1, h2⟩ := pyIdx_some h
+      by_cases hk : k < 0
+      · rw [if_pos hk] at h2; right; omega
+      · rw [if_neg hk] at h2; left; omega
+    · intro h
+      unfold pyIdx
+      rcases h with ⟨h1, h2, h3⟩ | ⟨h1, h2, h3⟩
+      · have : ¬ k < 0 := by omega
+        simp only [this, if_false]
+        rw [if_pos (by omega)]; congr 1; omega
+      · simp only [h1, if_true]
+        rw [if_neg (by omega), if_pos (by omega)]; congr 1; omega
+  · intro k i j h
+    have hj := (pyIdx_some h).1
+    refine ⟨?_, ?_, ?_, hj⟩
+    · simp only [CbOp.apply, h, List.set_eq_take_append_cons_drop, if_pos hj]
+    · simp only [CbOp.apply, h, List.eraseIdx_eq_take_drop_succ]
+    · simp only [cbGetItem, h, List.getD, List.getElem?_eq_getElem hj, Option.getD_some]
+  · intro k i h
+    simp [CbOp.apply, cbGetItem, h]
+  · intro k i
+    exact ⟨by simp only [CbOp.apply, cbInsert, insertIdx_take_drop i l _ (insIdx_le _ _)], insIdx_le _ _⟩
+  · intro i
+    have : insIdx l.length (l.length : Int) = l.length := by
+      unfold insIdx
+      have h0 : ¬ ((l.length : Int) < 0) := by omega
+      simp only [h0, if_false]; omega
+    simp only [CbOp.apply, cbInsert, this, List.insertIdx_length_self]
+  · intro o; exact ⟨rfl, rfl⟩
+  · intro k; exact ⟨rfl, rfl, rfl⟩
+
+/-- a refused operation leaves the contents untouched; an accepted one continues from the new contents (the caller's
+`try/except` around each operation) -/
+theorem cbRunOps_cons (l : List Nat) (op : CbOp) (ops : List CbOp) :
+    (∀ e, op.apply l = .error e → cbRunOps l (op :: ops) = ((cbRunOps l ops).1, some e :: (cbRunOps l ops).2)) ∧
+    (∀ l', op.apply l = .ok l' → cbRunOps l (op :: ops) = ((cbRunOps l' ops).1, none :: (cbRunOps l' ops).2)) := by
+  constructor
+  · intro e h; simp only [cbRunOps, h]
+  · intro l' h; simp only [cbRunOps, h]
+
+/-- **C12.15b** (composition with `C12_dispatch_order`) After ANY sequence of container operations on a `CallbackList` — each
+accepted or refused as in `C12_container_ops`, a refused one changing nothing (`cbRunOps_cons`) — a `fit` given that container
+dispatches every event of its protocol trace to exactly the resulting callbacks, in the resulting order; a sequence of
+operations that are all refused leaves the container, hence the dispatch, as it was. -/
+theorem C12_container_ops_dispatch (l : List Nat) (ops : List CbOp) (a : Args) (R : Req) (stop₀ : Bool) (nb : Nat)
+    (ha : a.callbacks = .cbList (cbRunOps l ops).1) :
+    calls (fit (a.cfg nb) R stop₀).1 =
+      (events (fit (a.cfg nb) R stop₀).1).flatMap (fun ev => (cbRunOps l ops).1.map (fun i => (i, ev))) ∧
+    ((∀ x ∈ (cbRunOps l ops).2, x ≠ none) → (cbRunOps l ops).1 = l) ∧
+    (cbRunOps l ops).2.length = ops.length := by
+  refine ⟨?_, ?_, ?_⟩
+  · have := (C12_callbacks_container a R stop₀ nb).2
+    rw [ha] at this
+    exact this
+  · clear ha
+    induction ops generalizing l with
+    | nil => intro _; rfl
+    | cons op ops ih =>
+      intro hall
+      cases hop : op.apply l with
+      | error e =>
+        rw [((cbRunOps_cons l op ops).1 e hop)] at hall ⊢
+        exact ih l (fun x hx => hall x (List.mem_cons_of_mem _ hx))
+      | ok l' =>
+        rw [((cbRunOps_cons l op ops).2 l' hop)] at hall
+        exact absurd rfl (hall none (List.mem_cons_self))
+  · clear ha
+    induction ops generalizing l with
+    | nil => rfl
+    | cons op ops ih =>
+      cases hop : op.apply l with
+      | error e => rw [((cbRunOps_cons l op ops).1 e hop)]; simp [ih]
+      | ok l' => rw [((cbRunOps_cons l op ops).2 l' hop)]; simp [ih]
+
+/-- a container built and edited through the API: `[5]`, `cl[0] = 0`, `append(2)`, `insert(1, 1)`, `insert(-9, 7)`,
+`cl[3] = "x"` (refused), `del cl[-4]`, `del cl[7]` (refused), `cl + [3]` — the result is `[0, 1, 2, 3]` -/
+example :
+    cbRunOps [5] [.setItem 0 (.cb 0), .append (.cb 2), .insert 1 (.cb 1), .insert (-9) (.cb 7), .setItem 3 .other,
+                  .delItem (-4), .delItem 7, .add [3], .append .other] =
+      ([0, 1, 2, 3], [none, none, none, none, some .TypeError, none, some .IndexError, none, some .TypeError]) := by
+  decide
+
+/-- **C12.16** The `Timer` that `time=True` appends (timer.py:32-62, neural_state.py:565-566) is transparent: the log of the
+run with it is the log of the run without it plus printed lines — entry for entry the same events, the same handler
+invocations of the user callbacks with the same flag and parameter version seen, the same flag read by `fit` after every
+dispatch (so the same breaks), the same control skeleton (parameter updates in the same windows, scheduler steps), the same
+final flag / version / scheduler count. Without the Timer nothing is printed; with it `calculate_elapsed_time` prints its line
+as the very last thing of every run that was not silent. -/
+theorem C12_timer_transparent (c : Cfg) (R : Req) (stop₀ : Bool) :
+    noPrint (fit (c.withTimer true) R stop₀).1 = (fit (c.withTimer false) R stop₀).1 ∧
+    events (fit (c.withTimer true) R stop₀).1 = events (fit (c.withTimer false) R stop₀).1 ∧
+    calls (fit (c.withTimer true) R stop₀).1 = calls (fit (c.withTimer false) R stop₀).1 ∧
+    rets (fit (c.withTimer true) R stop₀).1 = rets (fit (c.withTimer false) R stop₀).1 ∧
+    skeleton (fit (c.withTimer true) R stop₀).1 = skeleton (fit (c.withTimer false) R stop₀).1 ∧
+    (fit (c.withTimer true) R stop₀).2.stop = (fit (c.withTimer false) R stop₀).2.stop ∧
+    (fit (c.withTimer true) R stop₀).2.ver = (fit (c.withTimer false) R stop₀).2.ver ∧
+    (fit (c.withTimer true) R stop₀).2.sched = (fit (c.withTimer false) R stop₀).2.sched ∧
+    prints (fit (c.withTimer false) R stop₀).1 = [] ∧
+    (stop₀ = false → (fit (c.withTimer true) R stop₀).1.getLast? = some (.ret .trainEnd (fit (c.withTimer true) R stop₀).2.stop) ∧
+      (prints (fit (c.withTimer true) R stop₀).1).getLast? = some .total) := by
+  obtain ⟨h1, h2⟩ := fit_timerEq c R stop₀
+  obtain ⟨k1, k2, k3⟩ := key_eq h2
+  obtain ⟨p1, p2, p3, p4⟩ := noPrint_proj (fit (c.withTimer true) R stop₀).1
+  refine ⟨h1, by rw [← p1, h1], by rw [← p2, h1], by rw [← p3, h1], by rw [← p4, h1], k1, k2, k3,
+    by rw [← h1]; exact prints_noPrint _, ?_⟩
+  intro hs
+  subst hs
+  have hd : ∀ s : S, ∃ pre, (dispatch (c.withTimer true) R .trainEnd s).1 =
+      pre ++ [.print .total, .ret .trainEnd (dispatch (c.withTimer true) R .trainEnd s).2.stop] ∧ prints pre = [] := by
+    intro s
+    refine ⟨.emit .trainEnd :: (dispatchCbs R .trainEnd s.ver c.cbs s.stop).1, ?_, ?_⟩
+    · simp [dispatch, Cfg.withTimer, timerHandle]
+    · simp [(dispatchCbs_proj R .trainEnd s.ver c.cbs s.stop).2.2.2.1]
+  unfold fit
+  simp only [Bool.false_eq_true, if_false]
+  obtain ⟨pre, hp, hpp⟩ := hd (epochLoop (c.withTimer true) R (epochRange (c.withTimer true).start (c.withTimer true).epochs)
+    (dispatch (c.withTimer true) R .trainStart { stop := false, notified := false, ver := 0, sched := 0 }).2).2
+  constructor
+  · rw [hp]; simp [← List.append_assoc]
+  · rw [hp]; simp [← List.append_assoc, hpp]
+
+/-- **C12.16b** What the `Timer` prints (timer.py:39-62, `already_notified`): nothing in a silent run; otherwise at most ONE
+"Training terminated at epoch e[, batch b]" line — for the first `on_batch_end` / `on_epoch_end` (before train-end) whose
+dispatch leaves the flag set (`rets` = the flag after the user callbacks of each event; by `C12_sticky` the OR of the requests
+so far), naming that batch / epoch — followed by the elapsed-time line of `calculate_elapsed_time`, which is always last.
+A stop first requested at train-end is not announced. -/
+theorem C12_timer_prints (c : Cfg) (R : Req) :
+    prints (fit (c.withTimer true) R true).1 = [] ∧
+    ∃ pre, rets (fit (c.withTimer true) R false).1 = pre ++ [(.trainEnd, (fit (c.withTimer true) R false).2.stop)] ∧
+      prints (fit (c.withTimer true) R false).1 = firstMsg pre ++ [.total] ∧
+      (firstMsg pre).length ≤ 1 ∧ (pre.any endSet = false → firstMsg pre = []) := by
+  refine ⟨by rw [fit_stopped]; rfl, ?_⟩
+  obtain ⟨pre, h1, h2⟩ := fit_prints c R
+  refine ⟨pre, h1, h2, ?_, fun h => firstMsg_of_not_any h⟩
+  unfold firstMsg
+  split
+  · rename_i x _
+    cases x.1 <;> simp [timerLine]
+  · simp
+
+/-- callback 0 asks for a stop at the START of batch (1,1): the Timer announces it at the END of that batch, once, and the
+epoch-end that follows (flag still set) is not announced again -/
+example :
+    let c : Cfg := { start := 1, epochs := 2, numBatches := 3, cbs := [0], timer := false, hasSched := true }
+    let R : Req := { cb := fun i ev => i == 0 && ev == Event.batchStart 1 1, mid := fun _ _ => false }
+    firstMsg ((rets (fit (c.withTimer true) R false).1).dropLast) = [.terminatedBatch 1 1] ∧
+      ((rets (fit (c.withTimer true) R false).1).filter endSet).length = 2 := by decide
+
+/-- the hypotheses are satisfiable and the statement is not empty: a stopped three-batch run with the Timer prints two lines -/
+example :
+    let c : Cfg := { start := 1, epochs := 2, numBatches := 3, cbs := [0], timer := false, hasSched := true }
+    let R : Req := { cb := fun i ev => i == 0 && ev == Event.batchStart 1 1, mid := fun _ _ => false }
+    prints (fit (c.withTimer true) R false).1 = [.terminatedBatch 1 1, .total] ∧
+      (fit (c.withTimer true) R false).1.length = (fit (c.withTimer false) R false).1.length + 2 := by decide
+
 /-! ## Non-vacuity: a concrete run -/
 
 /-- two epochs (3, 4) of two batches, two callbacks; callback 1 requests a stop at the end of batch (3,1):
